@@ -10,6 +10,7 @@ use crate::targets::*;
 use crate::vnet::{render_log, Chooser, Faithful, Pick, Policy, RecvPoint, SendPoint, WireEvent};
 use gamedig::protocols::types::GatherToggle;
 use gamedig::GDErrorKind;
+use serde_json::Value;
 use std::sync::OnceLock;
 
 pub const GARBAGE: [u8; 2] = [0xAB, 0xCD];
@@ -240,6 +241,11 @@ struct Case {
     /// the sections are gathered with Try: a section whose attempts are exhausted is left out instead of failing the query
     /// (what the result then is, is C11's subject; the attempts are counted all the same)
     try_sections: bool,
+    /// the server's state changes between attempts (a player leaves, a variable goes): the result is the reply of the attempt
+    /// that was answered, with nothing left over from an earlier, abandoned attempt
+    changing: bool,
+    /// the server answers every request with another challenge: replies keep arriving, so nothing here is timeout-class
+    challenge_forever: bool,
 }
 
 fn build(tier: Tier) -> Vec<Case> {
@@ -263,6 +269,8 @@ fn build(tier: Tier) -> Vec<Case> {
                     unit,
                     empty_server: false,
                     try_sections: false,
+                    changing: false,
+                    challenge_forever: false,
                 });
                 if matches!(t.family, Family::Unreal2 | Family::Valve(_)) && retries <= 2 {
                     v.push(Case {
@@ -272,6 +280,8 @@ fn build(tier: Tier) -> Vec<Case> {
                         unit,
                         empty_server: true,
                         try_sections: false,
+                    changing: false,
+                    challenge_forever: false,
                     });
                 }
             }
@@ -295,10 +305,103 @@ fn build(tier: Tier) -> Vec<Case> {
                 unit: ALL_UNITS,
                 empty_server: false,
                 try_sections,
+                changing: false,
+                    challenge_forever: false,
+            });
+        }
+    }
+    // a Valve server that answers every request with yet another challenge
+    for t in protocol_targets() {
+        if !matches!(t.family, Family::Valve(_)) || !t.name.starts_with("valve::") || t.toggles != Some((GatherToggle::Enforce, GatherToggle::Enforce)) {
+            continue;
+        }
+        for retries in 0 ..= 2usize {
+            v.push(Case {
+                label: format!("{} retries={retries}, server answering every request with another challenge", t.name),
+                target: t.clone(),
+                retries,
+                unit: 0,
+                empty_server: false,
+                try_sections: false,
+                changing: false,
+                challenge_forever: true,
+            });
+        }
+    }
+    // a server whose state changes between attempts
+    for t in protocol_targets() {
+        if !matches!(t.name.as_str(), "gamespy::one::query" | "gamespy::one::query_vars" | "gamespy::two::query" | "gamespy::three::query" | "gamespy::three::query_vars" | "quake::three::query") {
+            continue;
+        }
+        for retries in 1 ..= 2usize {
+            v.push(Case {
+                label: format!("{} request unit 0 retries={retries}, server state changing between attempts", t.name),
+                target: t.clone(),
+                retries,
+                unit: 0,
+                empty_server: false,
+                try_sections: false,
+                changing: true,
+                challenge_forever: false,
             });
         }
     }
     v
+}
+
+/// Serves attempt k of the client from `servers[min(k, last)]`.
+struct Changing {
+    family: Family,
+    servers: Vec<Box<dyn crate::vnet::Responder>>,
+    attempts: usize,
+}
+impl crate::vnet::Responder for Changing {
+    fn on_datagram(&mut self, c: &crate::vnet::ConnInfo, data: &[u8]) -> Vec<Vec<u8>> {
+        if starts_attempt(self.family, data) {
+            self.attempts += 1;
+        }
+        let i = self.attempts.saturating_sub(1).min(self.servers.len() - 1);
+        self.servers[i].on_datagram(c, data)
+    }
+}
+
+/// The two states of a changing server: the family's seed, and the seed after its last player has left (and, where the
+/// format has free variables, one of them has gone).
+fn changing_servers(family: Family) -> Vec<Box<dyn crate::vnet::Responder>> {
+    use crate::rsm::gamespy::{Gs1Server, Gs2Server, Gs3Server};
+    use crate::rsm::quake::QuakeServer;
+    match family {
+        Family::Gs1 => {
+            let a = gs1_seed();
+            let mut b = a.clone();
+            b.players.pop();
+            b.extra.pop();
+            b.numplayers = b.numplayers.map(|n| n.saturating_sub(1));
+            let (na, nb) = (a.pairs().len(), b.pairs().len());
+            vec![Box::new(Gs1Server { state: a, cut_at: vec![na / 2] }), Box::new(Gs1Server { state: b, cut_at: vec![nb / 2] })]
+        }
+        Family::Gs2 => {
+            let a = gs2_seed();
+            let mut b = a.clone();
+            b.players.pop();
+            vec![Box::new(Gs2Server { state: a }), Box::new(Gs2Server { state: b })]
+        }
+        Family::Gs3 => {
+            let a = gs3_seed();
+            let mut b = a.clone();
+            b.players.pop();
+            let cut = |s: &crate::rsm::gamespy::Gs3State| vec![s.first_data_atom() + (s.n_atoms() - s.first_data_atom()) / 2];
+            let (ca, cb) = (cut(&a), cut(&b));
+            vec![Box::new(Gs3Server::new(a, ca)), Box::new(Gs3Server::new(b, cb))]
+        }
+        Family::Quake(v) => {
+            let a = quake_seed(v);
+            let mut b = a.clone();
+            b.players.pop();
+            vec![Box::new(QuakeServer { state: a }), Box::new(QuakeServer { state: b })]
+        }
+        other => panic!("no changing server for {other:?}"),
+    }
 }
 
 static CASES: OnceLock<Vec<Case>> = OnceLock::new();
@@ -315,7 +418,7 @@ impl Prop for C10 {
          handshake+status+ping ..., retry count r in 0..3 (quick) / 0..5 (thorough)). Within the unit every send may fail and every pending reply may \
          be delivered, dropped (silence) or replaced by a malformed reply (2-4 shapes per format, see assumptions); ALL such outcome sequences are enumerated (the tree is finite \
          because attempts are bounded), the other units are answered validly; for the multi-request exchanges (Valve, Unreal 2) also \
-         all sequences of timeout-class faults in EVERY unit of one query (r <= 2 quick / 3 thorough): each request has its own r+1 attempts. Every attempt of a unit must open with the same bytes. Below an execution that has already left the reference model the tree is not expanded. Reference model: attempts continue exactly \
+         all sequences of timeout-class faults in EVERY unit of one query (r <= 2 quick / 3 thorough): each request has its own r+1 attempts. Every attempt of a unit must open with the same bytes. Also: servers whose state changes between attempts (the result is the answered attempt's reply, nothing left over) and a Valve server that answers every request with another challenge (one attempt, no receive-class error). Below an execution that has already left the reference model the tree is not expanded. Reference model: attempts continue exactly \
          while the previous attempt was timeout-class (nothing received / could not send) and fewer than r+1 were made; never \
          after a malformed reply; first valid attempt => result identical to the fault-free result; malformed => error of a \
          non-timeout kind; all r+1 timeout-class => PacketReceive / PacketSend error. distinct_nontrivial = distinct (outcome \
@@ -336,7 +439,11 @@ impl Prop for C10 {
         let family = t.family;
         let empty = case.empty_server;
         let default_server = t.server.clone();
+        let changing = case.changing;
         let mk_server = move || -> Box<dyn crate::vnet::Responder> {
+            if changing {
+                return Box::new(Changing { family, servers: changing_servers(family), attempts: 0 });
+            }
             if !empty {
                 return default_server();
             }
@@ -357,6 +464,31 @@ impl Prop for C10 {
                 _ => default_server(),
             }
         };
+        if case.challenge_forever {
+            let Family::Valve(e) = family else { unreachable!() };
+            let st = valve_seed(e);
+            let mut tr = valve_seed_transport(e, &st);
+            tr.rounds = [1000, 1000, 1000];
+            let x = run_query(Box::new(crate::rsm::valve::ValveServer::new(st, tr)), Box::new(Faithful), Chooser::new(&[]), || (t.call)(ts));
+            ctx.account(&x, 0);
+            let starts = x.log.iter().filter(|e| matches!(e, WireEvent::Send { bytes, .. } if unit_of(fam, bytes) == 0 && starts_attempt(fam, bytes))).count();
+            let timeouts = x.log.iter().filter(|e| matches!(e, WireEvent::Recv { data: None, .. })).count();
+            let kind_ok = matches!(x.outcome.err_kind(), Some(k) if *k != GDErrorKind::PacketReceive && *k != GDErrorKind::PacketSend);
+            ctx.distinct_key(&(case.label.clone(), starts, x.outcome.class()));
+            if timeouts == 0 && (starts != 1 || !kind_ok) {
+                ctx.violation(
+                    format!("retry:re-attempt-without-a-timeout:{}", super::c09::family_tag(fam)),
+                    &[],
+                    format!("{}: every request was answered (with a challenge), yet the info request was started {starts} times; outcome {}", case.label, x.outcome.class()),
+                    format!("{starts} attempts; outcome {}", x.outcome.describe_json()),
+                    "one attempt and an error that is not of the receive / send class".to_string(),
+                    render_log(&x.log).into_iter().take(40).collect(),
+                );
+            } else {
+                ctx.sample(serde_json::json!({"case": case.label, "attempts": starts, "outcome": x.outcome.class()}));
+            }
+            return;
+        }
         let base = run_query(mk_server(), Box::new(Faithful), Chooser::new(&[]), || (t.call)(ts));
         let Outcome::Ok(baseline) = base.outcome.clone() else {
             ctx.violation(
@@ -371,6 +503,18 @@ impl Prop for C10 {
         };
         let _ = java_requests;
         let r = case.retries;
+        // (changing server: the fault-free answer of each of its states)
+        let baselines: Vec<Value> = if case.changing {
+            changing_servers(family)
+                .into_iter()
+                .map(|srv| match run_query(srv, Box::new(Faithful), Chooser::new(&[]), || (t.call)(ts)).outcome {
+                    Outcome::Ok(v) => v,
+                    other => panic!("changing server state does not answer: {}", other.class()),
+                })
+                .collect()
+        } else {
+            vec![]
+        };
         explore(
             ctx,
             // (no case of the unchanged tree comes near the cap; it is a safety net for trees that a defect makes large)
@@ -462,8 +606,11 @@ impl Prop for C10 {
                     match at.last() {
                         None => {}
                         Some(Attempt::Valid) => {
-                            if x.outcome.ok() != Some(&baseline) {
-                                bad = Some(("result-differs-from-fault-free".into(), format!("outcome {}", x.outcome.class())));
+                            // (the server counts the attempts that reached it: one whose send failed did not)
+                            let reached = x.log.iter().filter(|e| matches!(e, WireEvent::Send { bytes, ok: true, .. } if starts_attempt(fam, bytes))).count();
+                            let want = if case.changing { &baselines[reached.saturating_sub(1).min(baselines.len() - 1)] } else { &baseline };
+                            if x.outcome.ok() != Some(want) {
+                                bad = Some((if case.changing { "result-is-not-the-answered-attempt's-reply".into() } else { "result-differs-from-fault-free".into() }, format!("outcome {}", x.outcome.class())));
                             }
                         }
                         Some(Attempt::UndefinedKind) if x.outcome.ok().is_some() => {}
